@@ -615,7 +615,7 @@ def sweep_cases(env):
             else:
                 arrs = [LIST + lam + LIST, LIST + LIST + lam, lam + LIST + LIST, LIST + "2 " + lam, LIST + lam + "2", "1 " + lam + "3"]
             for a in arrs:
-                for tail in ("", ","):
+                for tail in (("", ",") if env.thorough or lname == "print" else ("",)):
                     cases.append({"prog": a + k + tail, "inputs": ["5", "[4, 6]"], "flags": "", "texts": [SWEEP_PAYLOAD],
                                   "diff": lname == "print", "limit": True, "sweep": k})
     mods = [m["key"] for m in t.get("modifiers", [])]
@@ -625,7 +625,7 @@ def sweep_cases(env):
         for lname, lam, el in (("print", "λ,;", ","), ("eval", "λ_" + vy_string(SWEEP_PAYLOAD) + "E;", "E"), ("call", "λ_" + vy_string(SWEEP_PAYLOAD) + "†;", "†")):
             tainted_list = "⟨" + vy_string(SWEEP_PAYLOAD) + "|" + vy_string(SWEEP_PAYLOAD) + "⟩"
             for prog in (LIST + m + lam * n_ops, tainted_list + m + el * n_ops, tainted_list + LIST + m + el * n_ops, LIST + m + (lam + "†") * 1 + el * (n_ops - 1)):
-                for tail in ("", ","):
+                for tail in (("", ",") if env.thorough else ("",)):
                     cases.append({"prog": prog + tail, "inputs": ["5", "[4, 6]"], "flags": "", "texts": [SWEEP_PAYLOAD],
                                   "diff": lname == "print", "limit": True, "sweep": "modifier " + m})
     return cases, keys, mods
@@ -635,8 +635,8 @@ def oracle(env):
     V.import_repo()
     import vyxal.main  # noqa: F401  (imported before forking)
     fixed = fixed_cases()
-    rnd = random_cases(env.rng, env.budget(2400, 14000))
-    dif = random_cases(env.rng, env.budget(700, 4000), diff=True)
+    rnd = random_cases(env.rng, env.budget(1500, 14000))
+    dif = random_cases(env.rng, env.budget(450, 4000), diff=True)
     for c in fixed[:40]:
         c["diff"] = "c" not in c["flags"] and "h" not in c["flags"]
     swp, swept_keys, swept_mods = sweep_cases(env)
@@ -1241,6 +1241,16 @@ def sink_summary(env):
                             "in_scope_guarded_by_not_online": [f"{s['file']}:{s['line']} {s['fn']} {s['callee']}" for s in in_scope if s["guarded"]],
                             "in_scope_unguarded_(must_be_listed_in_Model/Online.v)": [f"{s['file']}:{s['line']} {s['fn']} {s['callee']}({s['arg']}) when {s['cond_text']}" for s in in_scope if not s["guarded"]],
                             "online_flag_writes": [f"{w['file']} {w['fn']} {w['kind']}" for w in t.get("online_writes", [])]})
+    calls = t.get("ctx_calls", [])
+    must = [c for c in calls if c["caller_has_ctx"] and c["risky"]]
+    env.note("ctx_forwarding_table", {
+        "helpers_with_defaulted_ctx": {k: v[0]["default"] for k, v in (t.get("ctx_helpers") or {}).items()},
+        "calls_and_references": len(calls), "from_ctx_scope_to_helper_reaching_a_mode_decision": len(must),
+        "of_which_pass_ctx": sum(c["passes"] for c in must),
+        "left_to_the_default_(listed_in_Model/Online.v_ctx_exclusions)": [
+            f"{c['file']}:{c['line']} {c['fn']} -> {c['callee']} (default {c['default']})" for c in must if not c["passes"]],
+        "functions_that_can_call_a_user_function": len(t.get("calls_user_function", {})),
+        "functions_reaching_a_mode_decision": len(t.get("reaches_mode_decision", {}))})
     env.note("sinks_listed_legit_unguarded", [
         "main.py execute_vyxal exec(code): code = transpile(program), fixed template vocabulary (C18)",
         "elements.py vy_exec exec(transpile(lhs)): the string is run as Vyxal",
@@ -1265,9 +1275,9 @@ def run(env):
                 "(string literal of the program or input line) occurs outside every string constant, or equals it; when an executed code object has a tainted name; when a side-effect event fires; "
                 "when an exception other than SystemExit leaves execute_vyxal (wherever it was raised: input handling, transpile, body, flag post-processing, implicit output); when a raising program does not end in SystemExit with a traceback in record[2]; when SystemExit comes without a record; when record[1] differs from the expected text "
                 "(fixed cases) or from the offline stdout of the same program (differential cases). Programs: a fixed list (every printing element on scalar/list/lazy list/function, flags jJWSsdlGgLC…PṪṡcoOh, implicit output, "
-                "E/†/Ė/vectorised E on 10 tainted payloads and 9 literals, the same texts as inputs through ? , implicit input, □, flags a/Ṡ, raising programs, programs whose flag post-processing or implicit output raises) "
+                "E/†/Ė/vectorised E on 10 tainted payloads and 9 literals, 73 valid Python literals that are not Vyxal values or are lexical edge cases (None, ..., True, bytes, sets, dicts, tuples, [1, None], complex, huge ints, 1e400, nan, quotes/escapes, whitespace, unterminated) as inputs alone and mixed, read by ? / implicit input / ?E / never read, flags a and Ṡ, every element whose implementation can call a function it is handed (derived from the translator's call graph: safe_apply or a call of a parameter, transitively) and every modifier with lambdas that print / apply E / apply † to a tainted string,  the same texts as inputs through ? , implicit input, □, flags a/Ṡ, raising programs, programs whose flag post-processing or implicit output raises) "
                 "plus random programs from the core grammar (vlib/progs.py) extended with , … ₴ ¨, ¨… E † Ė whose string literals and inputs are drawn from the payloads. "
-                "CORRESPONDENCE (model evaluated in Coq): vy_eval on generated benign texts x both modes (trace + value/unchanged), vy_print on random value shapes (scalar, list, function, lazy list with cached prefix, nested) x both modes "
+                "CORRESPONDENCE (model evaluated in Coq): vy_eval on generated benign texts and the 73 odd literals x both modes (trace + value / unchanged (same object) / raises -- the model never raises), vy_print on random value shapes (scalar, list, function, lazy list with cached prefix, nested) x both modes "
                 "(number and kind of output effects; online text = offline text), function_call/vy_exec on strings and numbers, execute_vyxal on generated scenarios (inputs, flags c O o Ṡ, body of prints/E/†/Ė, raising body, transpile failure, final value that prints or raises) x both modes. "
                 "Non-trivial = the run involves a user text, an input, a printing element or an error / the value is not a bare scalar; distinct by canonical input.")
     import time
@@ -1286,6 +1296,8 @@ def run(env):
     env.assume("path conditions drop conjuncts they cannot use (early returns) and never invent one; ctx.online is assumed constant during a run, which the table obligation on the writes to `.online` supports")
     env.assume("the sinks listed in Model/Online.v (legit_unguarded, noted_out_of_scope) are justified by reading the code, not by proof; "
                "that transpiled code contains user text only as quoted literals is properties C18/C06")
+    env.assume("ctx forwarding is checked syntactically (explicit keyword / enough positional arguments / helper handed on to a call that gets ctx=...); "
+               "'can reach a mode decision' is an over-approximating name-based call graph; the 12 listed call sites that keep the default were judged by reading the code and by the dynamic sweep")
     env.assume("the effect-trace models equal the implementation's decision logic (checked by the correspondence, not proved)")
 
 
